@@ -119,6 +119,18 @@ def scenario(pk, params, inp):
     old_np = mod.np
     mod.np = _shim(old_np, rand)
     try:
+        if params.get("init"):
+            # another wrapper in the same process, same player count, the same NUMBER of initially known coalitions but other sizes
+            # (module-level state keyed too coarsely must not leak from one environment into the other)
+            other = [S for S in F.extras(n) if S not in params["init"]]
+            other.sort(key=lambda S: -F.popcount(S))
+            decoy_init = other[: len(set(params["init"]) - set(F.minimal(n)))]
+            dgame = pk.game.IncompleteCooperativeGame(n, pk.bounds.BOUNDS[params["computer"]])
+            dinner = pk.icg_gym.ICG_Gym(dgame, lambda: full(_draw(inp, 3, n)), [C(S) for S in F.minimal(n)] + [C(S) for S in decoy_init],
+                                        gap_functions(pk)[params["gap"]])
+            dlin = mod.ICG_Gym_Linear(dinner)
+            dlin.reset()
+            dlin.action_masks()
         game = pk.game.IncompleteCooperativeGame(n, pk.bounds.BOUNDS[params["computer"]])
         inner = pk.icg_gym.ICG_Gym(game, gen, [C(S) for S in F.minimal(n)] + [C(S) for S in params.get("init", [])], gap_functions(pk)[params["gap"]])
         lin = mod.ICG_Gym_Linear(inner)
